@@ -3,7 +3,7 @@ SOLVER = os.environ.get("C12_SOLVER", "cadical")
 
 META = {"bounds": "", "outside": "", "assumptions": [], "harness_functions": ["harness", "v_alloc", "v_buf", "v_reallocarray", "memchr", "memrchr", "memmem", "explicit_bzero"]}
 
-KF = set() if os.environ.get("C12_NO_KF") else {"KF_B64_ENC_NUL", "KF_B64_DEC_NUL", "KF_BUF2ARGS_NUL"}   # known-finding blocking defines in force (see findings/*.md); removed once the fixes are in /repo
+KF = set() if os.environ.get("C12_NO_KF") else {"KF_B64_ENC_NUL", "KF_B64_DEC_NUL", "KF_BUF2ARGS_NUL", "KF_ASN_TAG_INDEX", "KF_ASN_SHORT_LEN", "KF_MEM_REPLACE_BOUNDS"}   # known-finding blocking defines in force (see findings/*.md); removed once the fixes are in /repo
 
 def J(name, src, defs, unwind, shape, desc, **kw):
     d = {"name": name, "src": src, "defs": dict(defs), "unwind": unwind, "solver": SOLVER, "shape": shape, "desc": desc}
@@ -84,7 +84,7 @@ NUMT = ["usize", "u8", "u16", "u32", "u64", "ssize", "s8", "s16", "s32", "s64"]
 
 def small_jobs(tier):
     out = []
-    noarith = ["--no-signed-overflow-check", "--no-undefined-shift-check", "--no-conversion-check"]
+    noarith = ["--no-signed-overflow-check", "--no-undefined-shift-check"]
     for fam, lens in (("strh2", (0, 1, 5) if tier == "quick" else (0, 1, 2, 5, 9, 18)),
                       ("str2", (0, 1, 5) if tier == "quick" else (0, 1, 2, 5, 9, 22))):
         for t in NUMT:
